@@ -269,6 +269,11 @@ silently computes a back-end dependent value -/
 theorem profiles_wide_enough : WideEnough Profile.debug ∧ WideEnough Profile.release ∧ WideEnough ⟨true, 32⟩ ∧ WideEnough ⟨true, 16⟩ := by
   unfold WideEnough Profile.debug Profile.release; decide
 
+/-- non-vacuity of `history_ok`: its hypotheses are met by the debug and release profiles and by every
+constructed hasher (here: restored from the all-ones array) -/
+example : WideEnough Profile.debug ∧ (P.fromCheckpoint (List.replicate 164 0xff#8)).buffer.Inv :=
+  ⟨profiles_wide_enough.1, (constructors_inv ⟨0, 0, 0, 0⟩ (List.replicate 164 0xff#8) List.length_replicate).2.2⟩
+
 theorem legacy_debug_panic :
     let x : P.State := ⟨(P.new ⟨1, 2, 3, 4⟩).st, ⟨zeros 32, 32⟩⟩
     PP.finalize64 .debug x = .error "attempt to shift left with overflow" ∧
